@@ -93,6 +93,7 @@ func (sn *serviceBuilder) accept(visitor ServiceFileVisitor) error {
 		if err != nil {
 			return fmt.Errorf("method %s request: %w", method.Name, err)
 		}
+		requestNode.ListRequest = method.ListRequest
 
 		if err := visitor.VisitObject(requestNode); err != nil {
 			return fmt.Errorf("method %s request: %w", method.Name, err)
